@@ -115,6 +115,31 @@ extern "C" int pthread_cond_wait(pthread_cond_t *c, pthread_mutex_t *m) {
   }
   return real(c, m);
 }
+// the timed variants (std::condition_variable::wait_for / wait_until end up here): same window
+static void window_sleep() {
+  if (g_window_on.load(std::memory_order_relaxed)) {
+    long D = g_delay_us.load(std::memory_order_relaxed);
+    if (D > 0) {
+      g_in_window++;
+      g_windows++;
+      uint64_t h = mix(g_plan_seed.load(), (uint64_t)pthread_self() ^ (uint64_t)g_windows.load());
+      sleep_us((long)(h % (uint64_t)(D + 1)));
+      g_in_window--;
+    }
+  }
+}
+extern "C" int pthread_cond_timedwait(pthread_cond_t *c, pthread_mutex_t *m, const struct timespec *t) {
+  typedef int (*fn)(pthread_cond_t *, pthread_mutex_t *, const struct timespec *);
+  static fn real = (fn)dlsym(RTLD_NEXT, "pthread_cond_timedwait");
+  window_sleep();
+  return real(c, m, t);
+}
+extern "C" int pthread_cond_clockwait(pthread_cond_t *c, pthread_mutex_t *m, clockid_t clk, const struct timespec *t) {
+  typedef int (*fn)(pthread_cond_t *, pthread_mutex_t *, clockid_t, const struct timespec *);
+  static fn real = (fn)dlsym(RTLD_NEXT, "pthread_cond_clockwait");
+  window_sleep();
+  return real(c, m, clk, t);
+}
 #endif
 
 // ---------------------------------------------------------------------------------------------- pool lifecycles
@@ -135,7 +160,7 @@ static long run_pool_lifecycle(uint64_t seed, int workers, int tasks, int protoc
   int done = 0;
   {
     char t[160];
-    snprintf(t, sizeof t, "lifecycle=%ld workers=%d tasks=%d protocol=%c seed=%llu", lifecycle_no, workers, tasks, "abcde"[protocol], (unsigned long long)seed);
+    snprintf(t, sizeof t, "lifecycle=%ld workers=%d tasks=%d protocol=%c seed=%llu", lifecycle_no, workers, tasks, "abcdefg"[protocol], (unsigned long long)seed);
     obs::crumb("C10", "pool", t);
     // the parent reads the current lifecycle from the output file if it has to kill a deadlocked process
     obs::line(std::string("L\t") + t);
@@ -197,6 +222,63 @@ static long run_pool_lifecycle(uint64_t seed, int workers, int tasks, int protoc
       }
       pool.stop_all_workers();
       pool.wait_workers();
+    } else if (protocol == 5) { // a burst, a long idle pause (all workers asleep for 0.7 s), a second burst: idling must not cost tasks
+      int first = tasks / 2;
+      for (int i = 0; i < first; i++)
+        pool.add_task([i, &body, &m, &cv, &done]() {
+          body(i);
+          { std::lock_guard<std::mutex> lg(m); done++; }
+          cv.notify_all();
+        });
+      {
+        std::unique_lock<std::mutex> ul(m);
+        cv.wait(ul, [&]() { return done == first; });
+      }
+      sleep_us(700000);
+      for (int i = first; i < tasks; i++) pool.add_task([i, &body]() { body(i); });
+      pool.stop_all_workers();
+      pool.wait_workers();
+    } else if (protocol == 6) { // fork-join inside the pool: the last task hands over a child and waits for it, so (with >= 2 workers)
+                                // a sleeping sibling has to be woken by a hand-over that comes from a worker thread
+      if (workers < 2 || tasks < 2) {
+        for (int i = 0; i < tasks; i++) pool.add_task([i, &body]() { body(i); });
+      } else {
+        int parent = tasks - 2, child = tasks - 1;
+        for (int i = 0; i < parent; i++)
+          pool.add_task([i, &body, &m, &cv, &done]() {
+            body(i);
+            { std::lock_guard<std::mutex> lg(m); done++; }
+            cv.notify_all();
+          });
+        {
+          std::unique_lock<std::mutex> ul(m);
+          cv.wait(ul, [&]() { return done == parent; });
+        }
+        sleep_us((long)r.below(2000));   // the siblings go back to sleep
+        std::mutex cm;
+        std::condition_variable ccv;
+        bool child_done = false;
+        pool.add_task([parent, child, &body, pp, &cm, &ccv, &child_done]() {
+          body(parent);
+          pp->add_task([child, &body, &cm, &ccv, &child_done]() {
+            body(child);
+            { std::lock_guard<std::mutex> lg(cm); child_done = true; }
+            ccv.notify_all();
+          });
+          std::unique_lock<std::mutex> ul(cm);
+          ccv.wait(ul, [&]() { return child_done; });
+        });
+        {   // (stopping earlier would let the siblings exit before the child exists: the protocol's own deadlock, not the pool's)
+          std::unique_lock<std::mutex> ul(cm);
+          ccv.wait(ul, [&]() { return child_done; });
+        }
+        pool.stop_all_workers();
+        pool.wait_workers();
+        goto accounted2;
+      }
+      pool.stop_all_workers();
+      pool.wait_workers();
+    accounted2:;
     } else { // tasks trickle in while workers go back to sleep in between
       for (int i = 0; i < tasks; i++) {
         sleep_us((long)r.below(300));
@@ -214,12 +296,12 @@ static long run_pool_lifecycle(uint64_t seed, int workers, int tasks, int protoc
     int runs = ts[i].runs.load();
     if (runs != 1) {
       bad++;
-      obs::violation("C10", "pool", runs == 0 ? "task-lost" : "task-ran-twice", std::string("protocol_") + "abcde"[protocol],
+      obs::violation("C10", "pool", runs == 0 ? "task-lost" : "task-ran-twice", std::string("protocol_") + "abcdefg"[protocol],
                      "task " + std::to_string(i) + " ran " + std::to_string(runs) + " times; " + obs::c_detail);
     }
     if (ts[i].overlap.load()) {
       bad++;
-      obs::violation("C10", "pool", "self-concurrent", std::string("protocol_") + "abcde"[protocol], "task " + std::to_string(i) + " overlapped with itself; " + obs::c_detail);
+      obs::violation("C10", "pool", "self-concurrent", std::string("protocol_") + "abcdefg"[protocol], "task " + std::to_string(i) + " overlapped with itself; " + obs::c_detail);
     }
   }
   // ---- offline check of the hook event log
@@ -237,7 +319,7 @@ static long run_pool_lifecycle(uint64_t seed, int workers, int tasks, int protoc
   obs::count("eval.event_log_checks", 4);
   if (n < EVCAP && (enq != tasks || pop != tasks || beg != tasks || end != tasks || wexit != workers)) {
     bad++;
-    obs::violation("C10", "pool", "event-accounting", std::string("protocol_") + "abcde"[protocol],
+    obs::violation("C10", "pool", "event-accounting", std::string("protocol_") + "abcdefg"[protocol],
                    "enqueued=" + std::to_string(enq) + " popped=" + std::to_string(pop) + " begun=" + std::to_string(beg) + " ended=" + std::to_string(end) + " worker_exits=" + std::to_string(wexit) +
                        " expected tasks=" + std::to_string(tasks) + " workers=" + std::to_string(workers) + "; " + obs::c_detail);
   }
@@ -256,16 +338,20 @@ static int mode_pool(long lifecycles, uint64_t seed, int maxworkers, int maxtask
     if (r.chance(15)) tasks = 0;
     if (r.chance(15)) workers = 1;
     int protocol = (int)r.below(5);
+    if (r.chance(4)) protocol = 5;          // (costs 0.7 s of real idling: a few per process)
+    else if (r.chance(12)) protocol = 6;
+    if (r.chance(6)) tasks = 70 + (int)r.below(400);   // a backlog that stays non-empty over many pops
     uint64_t ls = mix(seed, (uint64_t)l);
     run_pool_lifecycle(ls, workers, tasks, protocol, l);
     obs::count("eval.lifecycle");
-    obs::count(std::string("cls.protocol_") + "abcde"[protocol]);
+    obs::count(std::string("cls.protocol_") + "abcdefg"[protocol]);
     if (tasks == 0) obs::count("cls.tasks_0");
     if (workers == 1) obs::count("cls.workers_1");
     if (tasks > workers) obs::count("cls.tasks_gt_workers");
+    if (tasks > 64) obs::count("cls.tasks_gt_64");
     if (l < 3) {
       char t[160];
-      snprintf(t, sizeof t, "pool lifecycle: %d workers, %d tasks, protocol %c, delay<=%ldus, window interposer %s", workers, tasks, "abcde"[protocol], delay_us, g_window_on.load() ? "on" : "off");
+      snprintf(t, sizeof t, "pool lifecycle: %d workers, %d tasks, protocol %c, delay<=%ldus, window interposer %s", workers, tasks, "abcdefg"[protocol], delay_us, g_window_on.load() ? "on" : "off");
       obs::line(std::string("X\t") + t);
     }
   }
